@@ -370,7 +370,7 @@ func (x *runner) evalTick(t, n int64, pRef, pRefPrev, inc, pPrevImpl, sPrev, sCu
 			}
 		}
 		if w >= reachLo {
-			x.expectTick("bucket_upper_edge_exclusive", q, w, t, "S(t) - 1e-36")
+			x.expectTick("just_below_edge_is_previous_bucket", q, w, t, "S(t) - 1e-36")
 		}
 	}
 
